@@ -1,10 +1,10 @@
 package run
 
 import (
-	"reflect"
 	"context"
 	"errors"
 	"fmt"
+	"reflect"
 	"runtime/debug"
 	"strings"
 	"time"
